@@ -137,6 +137,7 @@ static void consumer_explore(Buf *buf, std::vector<int> *done)
 
 // Consumer used for replay: follows the n-sequence dictated by the TLC behaviour; a 0 entry is a
 // size() that saw an empty queue.
+static bool g_replay_drift = false;
 static void consumer_replay(Buf *buf, const std::vector<int> *ns)
 {
   for (int want : *ns)
@@ -144,6 +145,14 @@ static void consumer_replay(Buf *buf, const std::vector<int> *ns)
     size_t sz = buf->size();
     if (want == 0)
       continue;
+    if ((size_t)want > sz)
+    {
+      // The real execution no longer follows the model behaviour (Level-B drift: the code performs
+      // other operations than the model, so the tape scheduled something else).  Consume(n) requires
+      // n <= size(): never drive the real object outside its contract - stop following the model here.
+      g_replay_drift = true;
+      break;
+    }
     std::vector<std::unique_ptr<Elem>> got;
     buf->Consume((size_t)want, [&](CircularBufferRange<AtomicUniquePtr<Elem>> range) noexcept {
       range.ForEach([&](AtomicUniquePtr<Elem> &ptr) {
@@ -211,6 +220,7 @@ static int do_replay(const char *file)
     };
     std::vector<std::string> lines;
     g_out = &lines;
+    g_replay_drift = false;
     vs::Result res = vs::run(cfg, [&]() {
       Buf buf((size_t)max);
       bufp = &buf;
@@ -237,6 +247,11 @@ static int do_replay(const char *file)
     {
       verdict["ok"]   = false;
       verdict["what"] = "schedule not followable at tape position " + std::to_string(res.tape_mismatch);
+    }
+    if (g_replay_drift && verdict["ok"])
+    {
+      verdict["ok"]   = false;
+      verdict["what"] = "model consumes more than the real queue holds (drift); consumer stopped";
     }
     size_t base = prefix + 1;  // index in snaps of the state after model step 0
     for (size_t i = 0; i < steps.size() && verdict["ok"]; ++i)
